@@ -1,4 +1,5 @@
 import Rn.Basic
+import Rn.Stage2
 
 /-! # C13 — property theorems (statements only; proofs live in the family libraries) -/
 
@@ -23,6 +24,19 @@ theorem scan_partition :
     List.count h a = List.count h (scan a d).1 + List.count h (scan a d).2.1 ∧
     List.count h d = List.count h (scan a d).1 + List.count h (scan a d).2.2 :=
   @Rn.scan_partition
+end
+
+section
+open Rn
+
+/-- stages 2-3 and the final result: whatever legal pairs the two concurrent matchers report (any schedule, any winner,
+any timeout), every deleted path appears exactly once (rename source or remaining deletion) and every added path
+exactly once (rename target or remaining addition) -/
+theorem applyMatches_perm :
+    ∀ (del add : List Nat) (ms : List (Nat × Nat)) (del' add' : List Nat)
+    (h : applyMatches del add ms = some (del', add')),
+    (ms.map (·.1) ++ del').Perm del ∧ (ms.map (·.2) ++ add').Perm add :=
+  @Rn.applyMatches_perm
 end
 
 end Props.C13
